@@ -145,26 +145,46 @@ pub fn run(root: &Path, prop: &dyn Prop, target: &str, seed: u64, runs_per_job: 
             Err(e) => return unavailable(format!("cannot start {}: {e}", bin.display())),
         }
     }
-    // generous overall limit: a job that neither finishes nor trips libFuzzer's own timeout is
-    // killed and counted, never judged
-    let limit = Duration::from_secs(3 * 3600);
+    // overall limit: a job that neither finishes nor trips libFuzzer's own timeout is killed and
+    // counted, never judged (libFuzzer's alarm handler can deadlock inside the allocator; such a
+    // job sleeps forever). Three hours at most; once half of the jobs are done, the others get
+    // four times what the median job took (at least twenty minutes).
+    let hard_limit = Duration::from_secs(3 * 3600);
     let mut killed = 0;
-    for c in children.iter_mut() {
-        loop {
+    let mut finished: Vec<Option<Duration>> = vec![None; children.len()];
+    loop {
+        let mut running = 0;
+        for (i, c) in children.iter_mut().enumerate() {
+            if finished[i].is_some() {
+                continue;
+            }
             match c.try_wait() {
-                Ok(Some(_)) => break,
-                Ok(None) => {
-                    if t0.elapsed() > limit {
-                        let _ = c.kill();
-                        let _ = c.wait();
-                        killed += 1;
-                        break;
-                    }
-                    std::thread::sleep(Duration::from_millis(200));
-                }
-                Err(_) => break,
+                Ok(Some(_)) | Err(_) => finished[i] = Some(t0.elapsed()),
+                Ok(None) => running += 1,
             }
         }
+        if running == 0 {
+            break;
+        }
+        let mut done: Vec<Duration> = finished.iter().flatten().cloned().collect();
+        done.sort();
+        let limit = if done.len() * 2 >= children.len() {
+            (done[done.len() / 2] * 4).max(Duration::from_secs(1200)).min(hard_limit)
+        } else {
+            hard_limit
+        };
+        if t0.elapsed() > limit {
+            for (i, c) in children.iter_mut().enumerate() {
+                if finished[i].is_none() {
+                    let _ = c.kill();
+                    let _ = c.wait();
+                    finished[i] = Some(t0.elapsed());
+                    killed += 1;
+                }
+            }
+            break;
+        }
+        std::thread::sleep(Duration::from_millis(200));
     }
     let mut execs = 0u64;
     let mut cov = 0u64;
